@@ -11,6 +11,7 @@ structure DriverState where
   infl : Inflation.State := default
   ovote : OracleVotes.State := {}
   tf : TF.State × TF.View := default
+  sudo : Sudo.State := default
 
 def splitArgs (line : String) : List String :=
   (line.trimAscii.toString.splitOn " ").filter (· ≠ "")
@@ -28,6 +29,9 @@ def stepLine (st : DriverState) (line : String) : DriverState × String :=
   | "tf" :: args =>
     let (s', out) := TF.step st.tf args
     ({ st with tf := s' }, out)
+  | "sudo" :: args =>
+    let (s', out) := Sudo.step st.sudo args
+    ({ st with sudo := s' }, out)
   | "oracle" :: args => (st, Oracle.step args)
   | "infl" :: args =>
     let (s', out) := Inflation.step st.infl args
